@@ -313,3 +313,38 @@ def _one_model(st, g, model, lab, n, card, joint, only):
                     if first:
                         st.sample({"g": g, "q": q, "e": evd})
                         first = False
+    # ---- virtual evidence (alone and together with hard evidence): Bayesian networks with string names only
+    if g["kind"] == "bn" and g["lab"][0] in ("str", "multi") and n >= 2:
+        from fractions import Fraction as F
+
+        from pgmpy.factors.discrete import TabularCPD
+
+        liks = {1: (0.5,), 2: (1, 0.5), 3: (1, 3, 2), 4: (1, 0.5, 0.25, 0)}
+        for q in range(n):
+            for v in range(n):
+                if v == q:
+                    continue
+                for hard in [None] + [h for h in range(n) if h not in (q, v)]:
+                    for hs in ([None] if hard is None else range(card[hard])):
+                        evd = {} if hard is None else {hard: hs}
+                        lik = liks[card[v]]
+                        post, pe = posterior(joint, [q], evd, [(v, [F(x) for x in lik])])
+                        if post is None:
+                            continue
+                        key = ["virt", q, v, [list(x) for x in evd.items()]]
+                        if only is not None and only != key:
+                            continue
+                        st.evals += 1
+                        st.transitions += 1
+                        st.nt(("virt", q, v, hard, hs))
+                        site = site0 + ".query(virtual)"
+                        try:
+                            ve = [TabularCPD(lab.name(v), card[v], [[x] for x in lik], state_names={lab.name(v): list(lab.states[v])})]
+                            res = BeliefPropagation(model).query([lab.name(q)], evidence=lab.ev(evd) or None, virtual_evidence=ve, show_progress=False)
+                        except Exception as ex:
+                            st.violation(site, "exception", case(key), repr(ex)[:300])
+                            continue
+                        st.compared += 1
+                        d = cmp_named(named_table(res), ref_named(post, lab))
+                        if d:
+                            st.violation(site, "wrong-posterior", case(key), None, d)
